@@ -22,3 +22,39 @@ CHECKS["C20"] = {
         {"bin": "asan/C20", "cases": P(100000, 1000000), "procs": P(2, 4), "args": ["--no-fork"]},
     ],
 }
+
+CHECKS["C01"] = {
+    "level": "exploration",
+    "technique": "random generation of (content, writer configuration, write/end-chunk history, read history, closed descriptors); round trip through the library plus independent reference decoder; CPU-time bound for termination",
+    "level_text": "Generated writer configurations/histories are run through the real writer in an isolated child; a successful close must yield a file that an independent specification-derived decoder accepts and decodes to exactly the input, and that the library validates and reads back under the generated read history. Sampled, not exhaustive: inputs up to a few MiB, thousands of cases per run.",
+    "level_note": "Trusted: reference decoder (ref/zckref.hpp), libzstd and OpenSSL one-shot functions. A refused configuration or a failing close is outside the property (counted in evidence).",
+    "rule": "case = (content kind/length/seed, writer configuration with legal setter order, write(n)/end_chunk history, cyclic read sizes, descriptors 0-2 closed before init). Non-trivial = >= 2 data chunks, or chunk max/dictionary/uncompressed-source flag set, or descriptors closed; distinct by hash of the choice sequence.",
+    "assumptions": ["reference decoder is correct", "a configuration refused by a setter and a failing zck_close are outside the property's premise"],
+    "runs": [
+        {"bin": "asan/C01", "cases": P(260, 4000), "procs": P(8, 16), "size": P(60, 100), "cpu_limit": 120, "shrink_budget": 150},
+    ],
+}
+
+CHECKS["C06"] = {
+    "level": "exploration",
+    "technique": "per generated sample: exhaustive single-byte substitution over the whole header region (every position x 255 values) plus insert/delete with adjusted size field; oracle = reference-computed header checksum",
+    "level_text": "For each generated valid sample (library- and reference-written, every overall hash type, flag 2, optional elements, dictionary, 0..12 chunks, full and detached) the substitution space position x value is enumerated completely and every mutant whose reference-computed checksum no longer matches must fail to open; the magic switch alone must still open. Exhaustive per sample, samples themselves are generated.",
+    "level_note": "Trusted: reference header parser/checksum (ref/zckref.hpp, OpenSSL one-shot digests). Hash collisions are ignored.",
+    "rule": "sample = (writer, hash types, flags, dictionary, chunk count, detached?); for each sample all header positions x all 255 other byte values, inserts (5 values per position) and deletes. Every mutant is non-trivial (it changes a header byte); distinct = (sample, position, value) by construction, samples distinct by choice-sequence hash.",
+    "assumptions": ["no SHA collisions", "the unmutated sample must open (otherwise the sample is skipped and counted under sample-not-opened)"],
+    "runs": [
+        {"bin": "asan/C06", "cases": P(10, 60), "procs": P(8, 16), "size": 60, "shrink_budget": 40},
+    ],
+}
+
+CHECKS["C07"] = {
+    "level": "exploration",
+    "technique": "model-based random pin tuples (type, digest string, length, setter order, lead-only validation) plus exhaustive byte x position enumeration of the digest string; oracle = explicit acceptance model over reference-parsed header",
+    "level_text": "An explicit model decides for every generated (pinned type, digest string, length, order) tuple whether the setters and the lead must be accepted; the library must agree, and an accepted lead must be followed by a successful full open reporting the pinned values. For sampled files every byte value at every position of the digest string is enumerated completely.",
+    "level_note": "Trusted: reference lead parser; the acceptance model is the property statement (hex digits either case, exact length, compared by value).",
+    "rule": "case = sample file (overall hash type, detached?) + pin tuple; exhaustive inner loop: digest string position x 256 byte values. Non-trivial = at least one pin set; distinct by choice-sequence hash (+ position x value by construction).",
+    "assumptions": ["setters are called before the lead is read, type before digest unless the case says otherwise"],
+    "runs": [
+        {"bin": "asan/C07", "cases": P(400, 3000), "procs": P(8, 16), "size": 60, "shrink_budget": 200},
+    ],
+}
